@@ -211,8 +211,9 @@ def _finish(  # noqa: PLR0913
             "wall_s": round(wall, 3),
             "violations": total.violation_count,
         }
-        ev_dir = ROOT / "evidence"
-        ev_dir.mkdir(exist_ok=True)
+        # (tooling that runs the checks against patched scratch copies of the repository keeps its evidence elsewhere)
+        ev_dir = Path(os.environ["VERIF_EVIDENCE_DIR"]) if os.environ.get("VERIF_EVIDENCE_DIR") else ROOT / "evidence"
+        ev_dir.mkdir(parents=True, exist_ok=True)
         (ev_dir / f"{prop}.json").write_text(json.dumps(evidence, indent=1) + "\n")
 
     print(
